@@ -158,6 +158,29 @@ def guarded_call(fn, arg):
         st.evals += 1
         st.violation(f"{prop}/library-refuses-an-honest-call/{site}", {"error": repr(e)[:200]}, "contract error escaped the harness", "an answer")
         return st
+    except Exception as e:  # noqa: BLE001
+        # a foreign exception whose innermost relevant frame is the library's own code is the library failing under an
+        # honest call; one raised by harness code is a harness bug and still ends the run (exit 2)
+        import traceback
+        frames = traceback.extract_tb(e.__traceback__)
+        owner, site, where = None, "?", "?"
+        for fr in frames:
+            if "/checks/" in fr.filename or "/verif/mc/" in fr.filename or "/verif/models/" in fr.filename:
+                site = f"{os.path.basename(fr.filename)}:{fr.name}"
+        for fr in reversed(frames):
+            if "/btclib/" in fr.filename:
+                owner, where = "library", f"{os.path.basename(fr.filename)}:{fr.name}"
+                break
+            if "/verif/" in fr.filename:
+                owner = "harness"
+                break
+        if owner != "library":
+            raise
+        prop = fn.__module__.rsplit(".", 1)[-1].upper()[:3] if getattr(fn, "__module__", "").startswith("checks.") else "C??"
+        st = Stats()
+        st.evals += 1
+        st.violation(f"{prop}/library-raises-a-foreign-exception/{site}", {"error": repr(e)[:200], "raised_in": where}, type(e).__name__, "an answer or a library exception")
+        return st
 
 
 def shard_round_robin(items, nshards):
